@@ -77,6 +77,8 @@ def run(ck):
     for which, off in (("h", 48), ("x_h", 144)):
         b = bytearray(vf); b[ok_off + off:ok_off + off + 96] = bytes([0xC0]) + bytes(95); addm("verifier", [(f"opening key {which} := identity", bytes(b))])
         b = bytearray(vf); b[ok_off + off + 95] ^= 1; addm("verifier", [(f"opening key {which} corrupted", bytes(b))])
+        for nm, enc in mutate.g2_specials(rng, valid=bytes(vf[ok_off + off:ok_off + off + 96])):
+            b = bytearray(vf); b[ok_off + off:ok_off + off + 96] = enc; addm("verifier", [(f"opening key {which} := {nm}", bytes(b))])
     pi_off = ok_off + ok2
     for v in mutate.EXTREMES:
         b = bytearray(vf); b[pi_off:pi_off + 8] = mutate.be64(v); addm("verifier", [(f"public input index 0 := {v:#x}", bytes(b))])
@@ -96,6 +98,15 @@ def run(ck):
     for nm, enc in mutate.g1_compressed_specials(rng):
         b = bytearray(pp); b[0:48] = enc; addm("pp", [(f"opening key g := {nm}", bytes(b))])
         b = bytearray(pp); b[240 + 48:240 + 96] = enc; addm("pp", [(f"commit key point 1 := {nm}", bytes(b))])
+    for which, off in (("h", 48), ("x_h", 144)):
+        for nm, enc in mutate.g2_specials(rng, valid=bytes(pp[off:off + 96])):
+            b = bytearray(pp); b[off:off + 96] = enc; addm("pp", [(f"opening key {which} := {nm}", bytes(b))])
+    # a G1 commit-key power that is on the curve but not in the subgroup; two powers shifted by +T and -T
+    T1 = mutate.g1_torsion_point(rng)
+    def g1c(P_):
+        bb = bytearray(P_[0].to_bytes(48, "big")); bb[0] |= 0x80 | (0x20 if P_[1] > (P381_ - P_[1]) else 0); return bytes(bb)
+    P381_ = mutate.P381
+    b = bytearray(pp); b[240 + 48 * 2:240 + 48 * 3] = g1c(T1); addm("pp", [("commit key power 2 := small-order point, not in the subgroup", bytes(b))])
     # ---- compressed circuit
     cc = B["compressed"]; pay = mutate.inflate(cc); d = mutate.parse_compressed(pay)
     addm("compressed", mutate.generic_mutants(cc, rng, nfl, header_fields=0))
@@ -162,7 +173,7 @@ def run(ck):
             ck.violation(f"compressed description accepted although malformed: {desc}", ctx, key=f"compressed-accepts:{desc.split(':=')[0].strip()}")
     ck.notes.append(f"accepted mutants per decoder: {accepted}")
     return ck.finish(level="proof",
-        rule="structure-aware mutation of valid encodings of prover, verifier, proof, public parameters and compressed circuit: bit flips, every header length field to extremes and +-1, inner little-endian length fields, truncation/extension/splices, hand-built invalid G1 encodings (identity, x>=p, off curve, outside the subgroup, flag bytes), non-canonical scalars, raw commit-key flag bytes, non-reduced limbs and on-curve points outside the subgroup (alone, and in groups whose torsion components cancel), re-packed MessagePack/deflate payloads (excess counts, out-of-range indices, trailing bytes inside and after the stream, bombs); checked build (debug assertions, overflow checks), catch_unwind, counting allocator; every accepted value is used once",
+        rule="structure-aware mutation of valid encodings of prover, verifier, proof, public parameters and compressed circuit: bit flips, every header length field to extremes and +-1, inner little-endian length fields, truncation/extension/splices, hand-built invalid G1 encodings (identity, x>=p, off curve, outside the subgroup, flag bytes), G2 opening-key elements on the twist but outside the subgroup (random, cofactor part, valid + cofactor point), non-canonical scalars, raw commit-key flag bytes, non-reduced limbs and on-curve points outside the subgroup (alone, and in groups whose torsion components cancel), re-packed MessagePack/deflate payloads (excess counts, out-of-range indices, trailing bytes inside and after the stream, bombs); checked build (debug assertions, overflow checks), catch_unwind, counting allocator; every accepted value is used once",
         assumptions=["model-level totality is by construction; absence of panics and allocation bounds are established on the real decoders by the run", "memory safety and termination of the Rust binary are outside the model (time-outs enforced by the harness)"],
         checker_cmd=proofgate.CHECKER_CMD, trusted_base=proofgate.TRUSTED)
 
